@@ -190,7 +190,7 @@ prop( 'C02', [ 'G-CHUNK', 'G-FRAME', 'P-ACT', 'P-ONE', 'P-CHAIN', 'R-ISO', 'N-RE
       technique='grammar-graph extraction by abstract interpretation of the builder code + edge-kind analysis; path effect counting and '
                 'must-pass-through on the CFG; AST idiom matching on the framework loops' )
 
-prop( 'C07', [ 'A-OFFSETS', 'P-ORDER', 'P-EACH', 'P-CLOSURE', 'R-LOCK-5', 'R-LOCK-6', 'P-FRESH', 'P-BUNDLE', 'S-RESOLVE', 'D-PATHSTOP', 'S-STATUS', 'R-STATELESS', 'D-OWNPATH' ],
+prop( 'C07', [ 'A-OFFSETS', 'P-ORDER', 'P-EACH', 'P-CLOSURE', 'R-LOCK-5', 'R-LOCK-6', 'P-FRESH', 'P-BUNDLE', 'S-RESOLVE', 'D-PATHSTOP', 'S-STATUS', 'R-STATELESS', 'D-OWNPATH', 'S-LONE' ],
       decides='P-EACH / P-CLOSURE also ( one member cannot take its neighbours with it ): the per-member dispatch in Message_Router.request and the per-member parse in the closure are each protected inside their member loop ( defect AM, repaired: an unsupported service used to fail the whole bundle, an unparseable member used to truncate it silently ).  D-OWNPATH: see C05.  A-OFFSETS: the two offset-table emitters of Message_Router.produce and the two slice bounds of the parser closure '
               'normalise (linear-expression normaliser) to 2 + 2*N relative to the running offset, the count field is the number of '
               'offsets, members are sliced between consecutive offsets (last to the end) and appended in order; P-ORDER: in both produce '
